@@ -295,6 +295,33 @@ func (c *flowCtx) containerWrites(v ssa.Value) APSet {
 			if u.X == v {
 				out.add(c.containerWrites(u), "")
 			}
+		case ssa.CallInstruction:
+			// the container is handed to a call that may fill it (copy(dst, src), binary.PutUint64(b, n), io.ReadFull...)
+			out.add(c.filledBy(u, v), "")
+		}
+	}
+	return out
+}
+
+// filledBy: container v is an argument of call ci; if ci may write into it, the content depends on the other arguments.
+func (c *flowCtx) filledBy(ci ssa.CallInstruction, v ssa.Value) APSet {
+	out := APSet{}
+	cc := ci.Common()
+	if b, ok := cc.Value.(*ssa.Builtin); ok {
+		if b.Name() == "copy" && len(cc.Args) == 2 && cc.Args[0] == v {
+			out.add(c.paths(cc.Args[1]), "")
+		}
+		return out
+	}
+	cal, ok := CalleeOf(cc)
+	if ok && strings.HasPrefix(cal.Pkg, modPath) {
+		return out // module callees are entered through their own summaries when they return the container
+	}
+	if ok && (strings.HasPrefix(cal.Name, "Put") || strings.HasPrefix(cal.Name, "Read") || strings.HasPrefix(cal.Name, "Fill") || strings.HasPrefix(cal.Name, "Encode") || strings.HasPrefix(cal.Name, "Append")) {
+		for _, a := range cc.Args {
+			if a != v {
+				out.add(c.paths(a), "")
+			}
 		}
 	}
 	return out
@@ -386,6 +413,11 @@ func (c *flowCtx) allocContent(al *ssa.Alloc, field int) APSet {
 				if s2, ok := r2.(*ssa.Store); ok && s2.Addr == u {
 					out.add(c.paths(s2.Val), "")
 				}
+			}
+		case *ssa.Slice:
+			// arr[:] handed to copy(dst, src) or another filling call
+			if u.X == al {
+				out.add(c.containerWrites(u), "")
 			}
 		case ssa.CallInstruction:
 			// the address itself is passed to a call: out-parameter / mutating method
